@@ -154,3 +154,25 @@ Theorem C04_component_end_to_end_noop_ordering : forall bk o g g' x,
   layout_component_n bk o g = Ok (g', x) -> W3_statement o g'.
 Proof. exact Wn3_no_overlap. Qed.
 Print Assumptions C04_component_end_to_end_noop_ordering.
+
+(* the whole Layout with OrderingNoop and all four size-aware positioners (Proofs/NoopComponents2.v) *)
+From Autog Require Import NoopComponents2.
+Theorem C04_layout_components_apart_noop_ordering : forall (A : Type) (eqA : A -> A -> bool), (forall x y, eqA x y = true <-> x = y) ->
+  forall bk o fixed sizes es ids ns oes xs, options_ok' o ->
+  layout_n A eqA bk o fixed sizes es = Ok (ids, (ns, oes, xs)) ->
+  spacing_nonneg o -> sizes_cfg_nonneg A eqA fixed sizes ids -> o_virtual o = false ->
+  (forall a, In a ns -> (0 <= on_x a)%Q) /\
+  (forall g, Populate.populate A eqA es = Ok (ids, g) ->
+     let cs := Populate.components (apply_sizes A eqA fixed sizes ids g) in
+     (forall a, In a ns -> exists i, (i < length cs)%nat /\ In (on_id a) (g_N (nth i cs Shift.graph0))) /\
+     (forall i j a b, (i < j)%nat -> (j < length cs)%nat -> In a ns -> In b ns ->
+        In (on_id a) (g_N (nth i cs Shift.graph0)) -> In (on_id b) (g_N (nth j cs Shift.graph0)) ->
+        (on_x a + on_w a + o_node_spacing o <= on_x b)%Q)).
+Proof. exact layout_n_components_apart. Qed.
+Print Assumptions C04_layout_components_apart_noop_ordering.
+
+Theorem C04_component_end_to_end_noop_ordering_all_positioners : forall bk o g g' x,
+  component_input g -> options_ok' o -> sizes_nonneg g -> spacing_nonneg o ->
+  layout_component_n bk o g = Ok (g', x) -> W3_statement o g'.
+Proof. exact Wn3_no_overlap'. Qed.
+Print Assumptions C04_component_end_to_end_noop_ordering_all_positioners.
